@@ -270,16 +270,54 @@ def rule_select(prog: Program) -> RuleResult:
     alt = prog.cls("conclusion_selector.Alternative")
     g = prog.method(alt.qual, "_evaluate__", inherited=False)
     table = _selection_table(prog, g)
+    loop_var = next(n.target.id for n in walk_local(g.node) if isinstance(n, ast.For) and isinstance(n.target, ast.Name))
+    # the three situations an output of the else-if evaluation can be in, and what they look like in the two ways the code may ask:
+    #  - through the pass markers the else-if evaluation maintains itself (left_evaluated / right_evaluated) and the output's own flag
+    #  - through the operands' node state (_is_false_)
+    STATES = {
+        "left fired": (["left"], {"self.left_evaluated": True, "self.right_evaluated": False, f"{loop_var}.is_true": True, f"{loop_var}.is_false": False, "self.left._is_false_": False}),
+        "left false, right fired": (["right"], {"self.left_evaluated": False, "self.right_evaluated": True, f"{loop_var}.is_true": True, f"{loop_var}.is_false": False, "self.left._is_false_": True, "self.right._is_false_": False}),
+        "left false, right false": ([], {"self.left_evaluated": False, "self.right_evaluated": True, f"{loop_var}.is_true": False, f"{loop_var}.is_false": True, "self.left._is_false_": True, "self.right._is_false_": True}),
+    }
     bad = None
-    for val, picked in table:
-        for lf in ([val[("truth", "self.left._is_false_")]] if ("truth", "self.left._is_false_") in val else [False, True]):
-            for rf in ([val[("truth", "self.right._is_false_")]] if ("truth", "self.right._is_false_") in val else [False, True]):
-                want = ["left"] if not lf else (["right"] if not rf else [])
-                if picked != want:
-                    bad = bad or f"left false={lf}, right false={rf}: selects {picked or 'nothing'}, should select {want or 'nothing'}"
-    other = sorted({a for val, _ in table for a in val if a not in (("truth", "self.left._is_false_"), ("truth", "self.right._is_false_"))})
+    other = set()
+    for label, (want, facts) in STATES.items():
+        hits = []
+        for val, picked in table:
+            ok = True
+            for a, v in val.items():
+                if a[0] == "truth" and a[1] in facts:
+                    ok = ok and v == facts[a[1]]
+                elif a[0] == "truth" and a[1] == "self.right._is_false_" and label == "left fired":
+                    continue  # not determined in this situation: both completions must agree (checked by collecting all hits)
+                else:
+                    other.add(a)
+            if ok:
+                hits.append(picked)
+        if not hits or any(h != want for h in hits):
+            bad = bad or f"{label}: selects {hits or 'nothing'}, should select {want or 'nothing'}"
     r.check(bad is None and bool(table) and not other, "Alternative._evaluate__#first-true-branch", site(g), f"{len(table)} paths", "left conclusions if left fired, else right conclusions if right fired (decision table)",
-            f"the alternative does not select the conclusions of the first branch that fired: {bad or ('the selection depends on ' + str(other))}")
+            f"the alternative does not select the conclusions of the first branch that fired: {bad or ('the selection depends on ' + str(sorted(other)))}")
+    # the question "which operand produced this output" must be asked of state that is maintained for every kind of operand.  The operands'
+    # own `_is_false_` is written by some expression classes only (found from source); the pass markers are written by the else-if
+    # evaluation itself.
+    reads_node_flag = any(a[0] == "truth" and a[1] in ("self.left._is_false_", "self.right._is_false_") for val, _ in table for a in val)
+    se = prog.cls("symbolic.SymbolicExpression")
+    silent = []
+    if reads_node_flag:
+        from .c01 import concrete_classes
+        from ..callgraph import self_closure
+
+        for c_ in concrete_classes(prog):
+            fs_, _ = self_closure(prog, c_.qual, prog.lookup(c_.qual, "_evaluate__"), False)
+            writes = any(isinstance(t, ast.Attribute) and t.attr == "_is_false_" for f_ in fs_ for n_ in walk_local(f_.node) if isinstance(n_, (ast.Assign, ast.AugAssign))
+                         for t in (n_.targets if isinstance(n_, ast.Assign) else [n_.target]))
+            if not writes:
+                silent.append(c_.name)
+    r.check(not reads_node_flag or not silent, "Alternative._evaluate__#asks-maintained-state", site(g), "operands' _is_false_" if reads_node_flag else "pass markers / the output's flag",
+            "which operand fired is read from state every operand kind maintains",
+            f"the selection reads the operands' `_is_false_`, which {sorted(silent)} never write during evaluation: with a quantifier or a predicate call as the whole base condition the "
+            "flag keeps its initial value, the base counts as fired for every output and its conclusion is attached to results of the alternative")
     _emission_protocol(r, g, "Alternative._evaluate__")
     r.check(any(is_super_call(c, "_evaluate__") for c in calls_in(g.node)) and prog.lookup_super(alt.qual, alt.qual, "_evaluate__").cls.name == "ElseIf",
             "Alternative._evaluate__#else-if-base", site(g), "", "results come from the else-if evaluation (right only when left is false)", "the alternative is not evaluated with else-if semantics")
